@@ -11,7 +11,8 @@ make)
   if [ -d "$D/repo" ]; then git -C /repo worktree remove --force "$D/repo" 2>/dev/null || rm -rf "$D/repo"; fi
   git -C /repo worktree prune
   git -C /repo worktree add --detach "$D/repo" HEAD >/dev/null 2>&1
-  rsync -a --delete --exclude tmp --exclude .git --exclude replays /verif/ "$D/verif/"
+  EX=""; [ -d "$D/verif/harness/target" ] && EX="--exclude harness/target"   # keep the lab's own cargo cache once it exists
+  rsync -a --delete $EX --exclude tmp --exclude .git --exclude replays /verif/ "$D/verif/"
   sed -i "s#path = \"/repo\"#path = \"$D/repo\"#" "$D/verif/harness/Cargo.toml"
   mkdir -p "$D/verif/tmp"
   echo "$D" ;;
